@@ -481,7 +481,12 @@ func Run(j *job.Job, s *job.Sink) {
 								}
 								continue
 							}
-							if *ptr == nil {
+							if *ptr == nil && r.Intn(4) == 0 && wantErr == "" {
+								// absent, and the value given is the one the bound has when it is not
+								// stated (recorded finding c08-delete-of-an-unstated-bound-by-its-default)
+								fmt.Fprintf(devText, " %s %s;", kw, map[string]string{"min": "0", "max": "unbounded"}[p])
+								wantErr = "delete-bound-absent-default-valued"
+							} else if *ptr == nil {
 								fmt.Fprintf(devText, " %s 4;", kw) // absent and different
 								if wantErr == "" {
 									wantErr = "delete-bound-absent"
